@@ -10,7 +10,7 @@ use crate::{exec, val};
 use serde_json::{json, Value as J};
 use std::panic::{catch_unwind, AssertUnwindSafe};
 
-const TYPES: [&str; 4] = ["AWS::S3::Bucket", "AWS::EC2::Volume", "Custom::Thing", "AWS::IAM::Role"];
+const TYPES: [&str; 9] = ["AWS::S3::Bucket", "AWS::EC2::Volume", "Custom::Thing", "AWS::IAM::Role", "AWS::EC2::VPC", "AWS::SNS::Topic", "AWS::SecretsManager::Secret", "AWS::KMS::Key", "AWS::Kinesis::Stream"];
 const PROPS: [&str; 6] = ["Name", "Size", "Enabled", "Tags", "Config", "p_1"];
 const ODD_PROPS: [&str; 3] = ["my-prop", "with space", "dot.ted"];
 const STRS: [&str; 12] = ["a", "us-west-2b", "x y", "10", "true", "", "héllo", "it's", "a/b:c", "null", "AWS::S3::Bucket", "[1]"];
@@ -76,7 +76,9 @@ impl<'a> TGen<'a> {
     /// 1..5 resources over 1..3 types; values repeated and distinct across the resources of a type.
     /// `uniform`: every resource of a type has the same property names.
     pub fn template(&mut self, uniform: bool) -> J {
-        let nres = 1 + self.r.below(5);
+        // mostly 1..5 resources; every fifth template has 6..9 (IN lists with many values)
+        let many = self.r.chance(1, 5);
+        let nres = if many { 6 + self.r.below(4) } else { 1 + self.r.below(5) };
         let ntypes = 1 + self.r.below(3);
         let mut types: Vec<&str> = TYPES.to_vec();
         self.r.shuffle(&mut types);
@@ -90,13 +92,14 @@ impl<'a> TGen<'a> {
             if self.hard && self.r.chance(1, 12) {
                 ps.push(*self.r.pick(&ODD_PROPS[..]));
             }
-            let pools = ps.iter().map(|_| (0..1 + self.r.below(3)).map(|_| self.value()).collect()).collect();
+            let pool_max = if many { 8 } else { 3 };
+            let pools = ps.iter().map(|_| (0..1 + self.r.below(pool_max)).map(|_| self.value()).collect()).collect();
             shape.push((ps, pools));
         }
-        let ids = ["ResA", "ResB", "ResC", "ResD", "ResE"];
+        let ids = ["ResA", "ResB", "ResC", "ResD", "ResE", "ResF", "ResG", "ResH", "ResI"];
         let mut res: Vec<(&str, J)> = Vec::new();
         for i in 0..nres {
-            let ti = self.r.below(ntypes);
+            let ti = if many { 0 } else { self.r.below(ntypes) };
             let (ps, pools) = &shape[ti];
             let mut props: Vec<(&str, J)> = Vec::new();
             for (pi, p) in ps.iter().enumerate() {
